@@ -371,10 +371,15 @@ func (m *MemoryBackend) Publish(client *Client, msg *packet.Message, ack Ack) er
 					return ErrQueueFull
 				}
 			} else {
-				// wait for room since client is online
+				// wait for room since client is online, only skip the message
+				// if the queue is full and the client is going offline
 				select {
 				case queue(sess) <- msg:
-				case <-sess.activeClient.Closing():
+				default:
+					select {
+					case queue(sess) <- msg:
+					case <-sess.activeClient.Closing():
+					}
 				}
 			}
 		}
@@ -391,10 +396,15 @@ func (m *MemoryBackend) Publish(client *Client, msg *packet.Message, ack Ack) er
 					return ErrQueueFull
 				}
 			} else if sess.activeClient != nil {
-				// wait for room since client is online
+				// wait for room since client is online, only skip the message
+				// if the queue is full and the client is going offline
 				select {
 				case queue(sess) <- msg:
-				case <-sess.activeClient.Closing():
+				default:
+					select {
+					case queue(sess) <- msg:
+					case <-sess.activeClient.Closing():
+					}
 				}
 			} else {
 				// ignore message if offline queue is full
